@@ -43,7 +43,6 @@ def cvc5_check(smt2, timeout=CVC5_TIMEOUT_MS):
         slv = cvc5.Solver(tm)
         slv.setOption('tlimit-per', str(timeout))
         slv.setOption('strings-exp', 'true')
-        slv.setLogic('ALL')
         parser = cvc5.InputParser(slv)
         parser.setStringInput(cvc5.InputLanguage.SMT_LIB_2_6, smt2, 'vc')
         sm = parser.getSymbolManager()
@@ -80,7 +79,9 @@ def discharge(vc, axioms, both=False, z3_timeout=Z3_TIMEOUT_MS, small=None):
             s.pop()
     v = Verdict(vc.name, vc.kind, r, 'z3', t, model, vc.path, vc.note)
     if r == 'unknown' or both:
-        smt2 = '(set-logic ALL)\n' + s.to_smt2()
+        smt2 = s.to_smt2()
+        if '(set-logic' not in smt2:
+            smt2 = '(set-logic ALL)\n' + smt2
         r2, t2 = cvc5_check(smt2)
         v.second = ('cvc5', r2, round(t2, 4))
         if r == 'unknown' and r2 in ('sat', 'unsat'):
